@@ -6,6 +6,7 @@
 // same number of schedules for every configuration of the matrix (DESIGN.md section 9).
 #ifdef VS_UCONTEXT
 #include "vsched.h"
+#include "allocfault.h"
 #include <ucontext.h>
 #include <sys/mman.h>
 #include <unistd.h>
@@ -237,7 +238,10 @@ void condition_variable::wait(std::unique_lock<mutex> &ul)
     return;
   }
   m->release_in_wait();
-  waiters.push_back(g.cur);
+  {
+    allocfault::Exempt af_;
+    waiters.push_back(g.cur);
+  }
   block(BLK_CV, this);
   m->lock();
 }
@@ -251,7 +255,10 @@ bool condition_variable::timed_wait(std::unique_lock<mutex> &ul)
   VT *me = g.ts[g.cur];
   int self_id = g.cur;
   m->release_in_wait();
-  waiters.push_back(self_id);
+  {
+    allocfault::Exempt af_;
+    waiters.push_back(self_id);
+  }
   me->timed = true;
   me->timed_out = false;
   block(BLK_CV, this);
@@ -317,6 +324,7 @@ void thread::start(std::function<void()> f)
     fprintf(stderr, "vsched::thread created outside a scheduler session\n");
     abort();
   }
+  allocfault::exempt++; // bookkeeping belongs to the harness (until just before the schedule point)
   VT *t = new VT;
   t->id = (int)g.ts.size();
   t->fn = f;
@@ -334,6 +342,7 @@ void thread::start(std::function<void()> f)
   makecontext(&t->ctx, trampoline, 0);
   g.ts.push_back(t);
   vid = t->id;
+  allocfault::exempt--;
   point(K_SPAWN, nullptr);
 }
 void thread::join()
